@@ -1173,3 +1173,8 @@ func (s *Sim) SplitAttack(t *rapid.T, up []int) {
 	s.Stat["split-attack"]++
 	s.tracef("splitattack end")
 }
+
+// ByzVoteTo is the exported form of byzVoteTo: every Byzantine validator casts (typ, round, id) to each target at height h.
+func (s *Sim) ByzVoteTo(targets []int, typ kproto.SignedMsgType, round uint32, id types.BlockID, h uint64) {
+	s.byzVoteTo(targets, typ, round, id, h)
+}
